@@ -153,6 +153,19 @@ fn c06_concat_oracle(c: &Case, outs: &[Out], v: &mut Vec<Finding>) {
   let src = stream_text(comp);
   let mut gl = attr_stream_lines(compl); gl.retain(|l, _| *l <= nlines(&src)); want_lines.retain(|l, _| *l <= nlines(&src));
   if gl != want_lines { v.push(finding("concat-attribution-lines", format!("columns=false: composite {:?} children {:?}", gl, want_lines))); }
+  // the same law seen through map(): resolving a position of child k's text through the composite's map gives what
+  // resolving it through child k's own map gives
+  if let (Some(Out::Map(cm)), Some(Out::Text(csrc))) = (get(c, outs, 0, &Op::Map(true)), get(c, outs, 0, &Op::Src)) {
+    let got: Vec<Attr> = match cm { Some(m) => attr_map(m, csrc), None => vec![None; csrc.len()] };
+    let mut off = 0usize;
+    for k in 1..=n {
+      let (Some(Out::Map(km)), Some(Out::Text(ksrc))) = (get(c, outs, k, &Op::Map(true)), get(c, outs, k, &Op::Src)) else { return };
+      let a: Vec<Attr> = match km { Some(m) => attr_map(m, ksrc), None => vec![None; ksrc.len()] };
+      let norm = |x: &Attr| x.as_ref().map(|r| RAttr { content: r.content.clone().filter(|c| !c.is_empty()), ..r.clone() });
+      for j in 0..a.len() { if got.get(off + j).map(norm) != Some(norm(&a[j])) { v.push(finding("concat-attribution-map", format!("child {k} byte {j}: composite map {} child map {}", got.get(off + j).map(show_attr).unwrap_or("<missing>".into()), show_attr(&a[j])))); return } }
+      off += a.len();
+    }
+  }
 }
 
 /// content lines of a file as announced by a stream
@@ -244,7 +257,7 @@ pub fn c06() -> TreeProp {
         let n = 2 + rng.below(3);
         let kids: Vec<T> = (0..n).map(|_| g.tree(rng, &cfg, cfg.depth, false)).collect();
         let mut trees = vec![T::Concat(kids.iter().map(|k| (false, k.clone())).collect())]; trees.extend(kids);
-        let mut script = vec![]; for i in 0..trees.len() { script.push((i, Op::Stream(true, false))); script.push((i, Op::Stream(false, false))); }
+        let mut script = vec![]; for i in 0..trees.len() { script.push((i, Op::Stream(true, false))); script.push((i, Op::Stream(false, false))); script.push((i, Op::Src)); script.push((i, Op::Map(true))); }
         Case { trees, script, note: "C06 concat".into() }
       } else {
         let inner = g.tree(rng, &GenCfg { cached_under_replace: false, cached: false, ..cfg.clone() }, cfg.depth, true);
